@@ -257,11 +257,11 @@ class ExtendedRawPacketReceived(PbMessageWrapper):
     rssi = PbFieldInt('phy.raw_packet.rssi', optional=True)
     iq = PbFieldArray('phy.raw_packet.iq')
     timestamp = PbFieldInt('phy.raw_packet.timestamp', optional=True)
-    syncword = PbFieldBytes('phy.packet.syncword')
-    deviation = PbFieldInt('phy.packet.deviation')
-    datarate = PbFieldInt('phy.packet.datarate')
-    endianness = PbFieldInt('phy.packet.endian')
-    modulation = PbFieldInt('phy.packet.modulation')
+    syncword = PbFieldBytes('phy.raw_packet.syncword')
+    deviation = PbFieldInt('phy.raw_packet.deviation')
+    datarate = PbFieldInt('phy.raw_packet.datarate')
+    endian = PbFieldInt('phy.raw_packet.endian')
+    modulation = PbFieldInt('phy.raw_packet.modulation')
 
     @dissect_failsafe
     def to_packet(self):
@@ -292,7 +292,7 @@ class ExtendedRawPacketReceived(PbMessageWrapper):
     def from_packet(packet):
         """Convert packet to message
         """
-        msg = PacketReceived(
+        msg = ExtendedRawPacketReceived(
             frequency=packet.metadata.frequency,
             packet=bytes(packet)
         )
@@ -302,17 +302,18 @@ class ExtendedRawPacketReceived(PbMessageWrapper):
             msg.timestamp = packet.metadata.timestamp
 
         if packet.metadata.endianness is not None:
-            msg.endian = endianness
+            msg.endian = packet.metadata.endianness
 
         if packet.metadata.datarate is not None:
-            msg.datarate = datarate
+            msg.datarate = packet.metadata.datarate
 
         if packet.metadata.deviation is not None:
-            msg.deviation = deviation
+            msg.deviation = int(packet.metadata.deviation)
 
         if packet.metadata.modulation is not None:
-            msg.modulation = modulation
+            msg.modulation = int(packet.metadata.modulation)
 
         if packet.metadata.syncword is not None:
-            msg.syncword = syncword
+            msg.syncword = bytes(packet.metadata.syncword)
+
         return msg
